@@ -1,3 +1,102 @@
-(* placeholder, replaced by the real theorems *)
-Theorem placeholder_C02 : True. Proof. exact I. Qed.
-Print Assumptions placeholder_C02.
+(* C02 — Offered choices are exactly the enabled ones; an index selects what was shown.
+   Property theorems only (proofs: Proofs/EngineChoice.v, Proofs/EngineUndo.v).  For every story, every
+   author-code oracle and every state.
+   `enabled s c dt`: the choice's condition holds in the variables of state s (a condition that cannot be
+   evaluated counts as false) and the choice is repeatable (+) or its identity (passage : rendered text : target)
+   is not among the used one-time choices.  `pure_choice`: the choice text consists of text, {expr} and inline
+   conditionals - the only tokens the compiler puts into choice texts - so rendering it has no effect.
+   KNOWN LIMIT (finding F02b, see DESIGN.md): the offer is computed when the passage is rendered; a turn_end hook
+   that afterwards changes a variable read by a choice condition leaves that offer stale.  The theorem is
+   therefore about the state in which the passage was rendered (s1), which is the current state whenever no
+   hook ran after it. *)
+From Coq Require Import String Ascii List Bool ZArith Arith.
+From Bardic Require Import PyStr Value Compiled Engine EngineBase EngineNav EngineParams EngineSem EngineJump
+     EngineUndo EngineChoice.
+Import ListNotations.
+
+(* the offered choices are precisely the enabled candidates (the passage's own choices, then those contributed
+   by the rendered @if/@for blocks) of the current @join section, in order, with their rendered texts *)
+Theorem offered_exactly_enabled : forall orc ctxkeys st pid s s' o,
+  render_passage orc ctxkeys st pid s = (s', Ok o) ->
+  exists p s1 cds,
+    get_passage st pid = Some p /\
+    (Forall (fun x => pure_choice (cand_choice x)) (passage_cands p cds) ->
+     let sec := match lookup pid (joinidx (nc s1)) with Some n => n | None => 0 end in
+     s' = s1 /\
+     o_choices o = map (shown orc ctxkeys s1) (filter (keep orc ctxkeys s1 sec) (passage_cands p cds))).
+Proof. exact offered_exactly_enabled_lemma. Qed.
+Print Assumptions offered_exactly_enabled.
+
+(* choose(i) with a valid index navigates with the i-th OFFERED choice: its target with its arguments ... *)
+Theorem choose_selects_shown : forall orc ctxkeys st e i,
+  valid_index e i ->
+  exists ch, nth_error (o_choices (current_out e)) (Z.to_nat i) = Some ch /\
+    choose orc ctxkeys st e i =
+    run_nav (choose_nav orc ctxkeys st ch (current_out e))
+            (mkES (ec e) (push50 (ec e) (undo_stack e)) [] (escopes e) (elog e)).
+Proof. exact choose_valid. Qed.
+Print Assumptions choose_selects_shown.
+
+Theorem chosen_target_is_entered : forall orc ctxkeys st ch o,
+  ch_sticky (rc_choice ch) = true -> String.eqb (ch_target (rc_choice ch)) "@join" = false ->
+  forall s, choose_nav orc ctxkeys st ch o s =
+            bind (goto orc ctxkeys st (jump_spec (ch_target (rc_choice ch)) (ch_args (rc_choice ch))))
+                 (after_hooks orc ctxkeys st) s.
+Proof. intros orc ctxkeys st ch o Hs Hj s. unfold choose_nav. rewrite Hs, Hj. reflexivity. Qed.
+Print Assumptions chosen_target_is_entered.
+
+(* an index outside the offered range raises IndexError and changes nothing at all - not the variables, not the
+   position, not the offer, not the undo/redo stacks *)
+Theorem bad_index_changes_nothing : forall orc ctxkeys st e i,
+  ~ valid_index e i -> choose orc ctxkeys st e i = (e, Exc IndexError).
+Proof. exact choose_bad_index. Qed.
+Print Assumptions bad_index_changes_nothing.
+
+(* taking a one-time choice records its identity, whatever the navigation then does ... *)
+Theorem one_time_choice_is_marked : forall orc ctxkeys st ch o s s' r,
+  ch_sticky (rc_choice ch) = false ->
+  choose_nav orc ctxkeys st ch o s = (s', r) ->
+  used (nc s') = add_used (choice_id (o_pid o) (rc_text ch) (ch_target (rc_choice ch))) (used (nc s)) /\
+  str_in (choice_id (o_pid o) (rc_text ch) (ch_target (rc_choice ch))) (used (nc s')) = true.
+Proof.
+  intros orc ctxkeys st ch o s s' r Hs H.
+  pose proof (choose_nav_marks_used orc ctxkeys st ch o s s' r Hs H) as E. split; [exact E|].
+  rewrite E. apply str_in_add_used.
+Qed.
+Print Assumptions one_time_choice_is_marked.
+
+(* ... and a one-time choice whose identity is recorded is never enabled, hence never offered again from that
+   passage (until undo restores an earlier `used`, or reset_one_time clears it); marks are only ever added *)
+Theorem one_time_never_reoffered : forall orc ctxkeys s c dt,
+  pure_choice c -> ch_sticky c = false ->
+  str_in (choice_id (cur_name s) (text_of orc ctxkeys s c dt) (ch_target c)) (used (nc s)) = true ->
+  enabled orc ctxkeys s c dt = false.
+Proof. intros orc ctxkeys s c dt. apply used_hides. Qed.
+Print Assumptions one_time_never_reoffered.
+
+Theorem used_marks_only_grow : forall x y u, str_in y u = true -> str_in y (add_used x u) = true.
+Proof. exact str_in_add_used_mono. Qed.
+Print Assumptions used_marks_only_grow.
+
+(* a repeatable choice is enabled exactly when its condition holds *)
+Theorem sticky_reoffered : forall orc ctxkeys s c dt,
+  ch_sticky c = true -> enabled orc ctxkeys s c dt = cond_holds orc s c.
+Proof. intros orc ctxkeys s c dt. apply sticky_enabled_iff_cond. Qed.
+Print Assumptions sticky_reoffered.
+
+(* non-vacuity: a story whose opening passage offers one of two choices (the other is disabled) *)
+Definition two_story : story :=
+  mkStory "A" [("A"%string,
+     mkPassage "A" [] [TText "a"]
+       [Choice [TText "go"] "A" "" (Some "yes"%string) true 0 [] [];
+        Choice [TText "no"] "A" "" (Some "nope"%string) true 0 [] []] [] [] [])] [] [].
+Definition yes_orc : pyorc :=
+  mkOrc (fun _ c => if String.eqb c "yes" then Ok (VBool true) else Exc NameError)
+        (fun c _ => Ok c) (fun _ _ => Ok ""%string) (fun _ _ => Ok ([], [])).
+Example offered_example :
+  map rc_text (o_choices (current_out (fst (init yes_orc [] two_story [])))) = ["go"%string].
+Proof. vm_compute. reflexivity. Qed.
+Example bad_index_example :
+  let e := fst (init yes_orc [] two_story []) in
+  valid_index e 0 /\ ~ valid_index e 1 /\ snd (choose yes_orc [] two_story e 1) = Exc IndexError.
+Proof. vm_compute. repeat split; try discriminate; intros [? ?]; discriminate. Qed.
